@@ -451,6 +451,62 @@ func c12Readers(args []string) int {
 			}
 		}
 	}
+	// the hierarchical readers (csv2, fixedlength2, edi) over random declaration hierarchies (Hierarchy.tla's space: groups,
+	// min 0..2, max 1 / 2 / unbounded, the target at any depth, record shapes) and unit sequences that fill, overfill and
+	// underfill them: whichever instances complete together with a target, the tree handed out is live and whole
+	{
+		hr := rng(1217)
+		for ci := 0; ci < 150*nmut; ci++ {
+			h := genHier(hr, 1+hr.Intn(6), []string{"A", "B", "C"})
+			var units []string
+			for k := 1 + hr.Intn(2); k > 0; k-- {
+				genUnits(hr, &h, h.kids(0), &units, 30)
+			}
+			if hr.Intn(3) == 0 && len(units) > 0 {
+				p := hr.Intn(len(units))
+				units = append(units[:p], units[p+1:]...)
+			}
+			impls := []string{"csv2", "fixedlength2"}
+			if h.Edi {
+				impls = []string{"edi"}
+			}
+			for _, impl := range impls {
+				schema := renderSchema(&h, impl)
+				sch, err, p := newSchema([]byte(schema))
+				if err != nil || p != "" {
+					continue // (C05 reports a well-formed hierarchy that is rejected)
+				}
+				in := renderInput(units, impl, hr.Intn(2))
+				nread := 0
+				out := runTranscript(sch, strings.NewReader(in), RunOpts{MaxReads: 200, AfterRead: func(tr omniTransform, res Res) {
+					if res.Class != "ok" {
+						return
+					}
+					rr, e := tr.RawRecord()
+					if e != nil {
+						return
+					}
+					n, _ := rr.Raw().(*idr.Node)
+					if n == nil {
+						return
+					}
+					nread++
+					ev, ok := dumpTree(n, pt, 400)
+					if !ok {
+						return
+					}
+					ev["tr"] = len(events) + 1
+					ev["sample"] = fmt.Sprintf("hierarchy %d (%s) record %d: schema %s input %q", ci, impl, nread, schema, in)
+					events = append(events, ev)
+					sum.Traces++
+					sum.eval(h.N >= 2, M{"h": ci, "i": impl, "k": nread})
+				}})
+				if out.Panic != "" {
+					violation("C12", "panic", "reader panicked: "+out.Panic, M{"sample": "hierarchy", "schema": schema, "input": in})
+				}
+			}
+		}
+	}
 	// a FormatReader that is asked again after it reported the end (or an error) must not release anything a second
 	// time: the real readers of all formats, reached through the CustomFileFormats extension point, get three more
 	// Read calls after the Transform has finished, with another owner acquiring nodes in between
